@@ -1,6 +1,8 @@
 package main
 
 import (
+	"os"
+	"sort"
 	"go/ast"
 	"go/printer"
 	"go/token"
@@ -23,37 +25,161 @@ func exprText(e ast.Expr) string {
 }
 
 func extractUnordered(repo string) string {
-	files := []string{"internal/ebnf/parser/spec/spec.go", "internal/ebnf/parser/spec/symbol_table.go", "internal/ebnf/parser/spec/parser.go",
-		"internal/ebnf/parser/spec/strings.go", "internal/generate/golang/golang.go", "internal/command/command.go"}
+	// every non-test file of the tool (the developer-only table generator and the verification hooks excluded)
+	var files []string
+	for _, root := range []string{"cmd", "internal"} {
+		filepath.Walk(filepath.Join(repo, root), func(p string, info os.FileInfo, err error) error {
+			if err != nil || info.IsDir() {
+				return nil
+			}
+			rel, _ := filepath.Rel(repo, p)
+			if !strings.HasSuffix(p, ".go") || strings.HasSuffix(p, "_test.go") || strings.HasPrefix(rel, "internal/ebnf/parser/generate/") || strings.Contains(rel, "zz_verif") || strings.HasPrefix(rel, "internal/zzverif/") {
+				return nil
+			}
+			files = append(files, rel)
+			return nil
+		})
+	}
+	sort.Strings(files)
 	type loop struct{ file, fn, expr, kind string }
 	var loops []loop
+	// first pass: named map types and map-typed struct fields, per package directory
+	namedMaps := map[string]map[string]bool{}
+	mapFields := map[string]map[string]bool{}
+	isMapType := func(dir string, e ast.Expr) bool {
+		switch x := e.(type) {
+		case *ast.MapType:
+			return true
+		case *ast.Ident:
+			return namedMaps[dir][x.Name]
+		case *ast.StarExpr:
+			if id, ok := x.X.(*ast.Ident); ok {
+				return namedMaps[dir][id.Name]
+			}
+		}
+		return false
+	}
+	parsed := map[string]*ast.File{}
 	for _, rel := range files {
 		_, f := parseFile(filepath.Join(repo, rel))
+		parsed[rel] = f
+		dir := filepath.Dir(rel)
+		if namedMaps[dir] == nil {
+			namedMaps[dir] = map[string]bool{}
+			mapFields[dir] = map[string]bool{}
+		}
+		for _, d := range f.Decls {
+			gd, ok := d.(*ast.GenDecl)
+			if !ok {
+				continue
+			}
+			for _, sp := range gd.Specs {
+				if ts, ok := sp.(*ast.TypeSpec); ok {
+					if _, ok := ts.Type.(*ast.MapType); ok {
+						namedMaps[dir][ts.Name.Name] = true
+					}
+				}
+			}
+		}
+	}
+	for _, rel := range files {
+		dir := filepath.Dir(rel)
+		for _, d := range parsed[rel].Decls {
+			gd, ok := d.(*ast.GenDecl)
+			if !ok {
+				continue
+			}
+			for _, sp := range gd.Specs {
+				ts, ok := sp.(*ast.TypeSpec)
+				if !ok {
+					continue
+				}
+				if st, ok := ts.Type.(*ast.StructType); ok {
+					for _, fl := range st.Fields.List {
+						if isMapType(dir, fl.Type) {
+							for _, n := range fl.Names {
+								mapFields[dir][n.Name] = true
+							}
+						}
+					}
+				}
+			}
+		}
+	}
+	for _, rel := range files {
+		dir := filepath.Dir(rel)
+		f := parsed[rel]
+		// package-level variables of map type
+		pkgMaps := map[string]bool{}
+		for _, d := range f.Decls {
+			if gd, ok := d.(*ast.GenDecl); ok {
+				for _, sp := range gd.Specs {
+					if vs, ok := sp.(*ast.ValueSpec); ok {
+						for i, n := range vs.Names {
+							if vs.Type != nil && isMapType(dir, vs.Type) {
+								pkgMaps[n.Name] = true
+							}
+							if i < len(vs.Values) {
+								if cl, ok := vs.Values[i].(*ast.CompositeLit); ok && cl.Type != nil && isMapType(dir, cl.Type) {
+									pkgMaps[n.Name] = true
+								}
+							}
+						}
+					}
+				}
+			}
+		}
 		for _, d := range f.Decls {
 			fd, ok := d.(*ast.FuncDecl)
 			if !ok || fd.Body == nil {
 				continue
 			}
-			// locals of map type
+			// receiver, parameters and locals of map type
 			maps := map[string]bool{}
-			ast.Inspect(fd.Body, func(n ast.Node) bool {
-				as, ok := n.(*ast.AssignStmt)
-				if !ok {
-					return true
+			for k := range pkgMaps {
+				maps[k] = true
+			}
+			addFields := func(fl *ast.FieldList) {
+				if fl == nil {
+					return
 				}
-				for i, r := range as.Rhs {
-					isMap := false
-					switch x := r.(type) {
-					case *ast.CallExpr:
-						if id, ok := x.Fun.(*ast.Ident); ok && id.Name == "make" && len(x.Args) > 0 {
-							_, isMap = x.Args[0].(*ast.MapType)
+				for _, p := range fl.List {
+					if isMapType(dir, p.Type) {
+						for _, n := range p.Names {
+							maps[n.Name] = true
 						}
-					case *ast.CompositeLit:
-						_, isMap = x.Type.(*ast.MapType)
 					}
-					if isMap && i < len(as.Lhs) {
-						if id, ok := as.Lhs[i].(*ast.Ident); ok {
-							maps[id.Name] = true
+				}
+			}
+			addFields(fd.Recv)
+			addFields(fd.Type.Params)
+			ast.Inspect(fd.Body, func(n ast.Node) bool {
+				switch as := n.(type) {
+				case *ast.AssignStmt:
+					for i, r := range as.Rhs {
+						isMap := false
+						switch x := r.(type) {
+						case *ast.CallExpr:
+							if id, ok := x.Fun.(*ast.Ident); ok && id.Name == "make" && len(x.Args) > 0 {
+								isMap = isMapType(dir, x.Args[0])
+							}
+						case *ast.CompositeLit:
+							isMap = x.Type != nil && isMapType(dir, x.Type)
+						}
+						if isMap && i < len(as.Lhs) {
+							if id, ok := as.Lhs[i].(*ast.Ident); ok {
+								maps[id.Name] = true
+							}
+						}
+					}
+				case *ast.DeclStmt:
+					if gd, ok := as.Decl.(*ast.GenDecl); ok {
+						for _, sp := range gd.Specs {
+							if vs, ok := sp.(*ast.ValueSpec); ok && vs.Type != nil && isMapType(dir, vs.Type) {
+								for _, n := range vs.Names {
+									maps[n.Name] = true
+								}
+							}
 						}
 					}
 				}
@@ -67,6 +193,8 @@ func extractUnordered(repo string) string {
 				txt := exprText(rs.X)
 				kind := ""
 				if id, ok := rs.X.(*ast.Ident); ok && maps[id.Name] {
+					kind = "map"
+				} else if se, ok := rs.X.(*ast.SelectorExpr); ok && mapFields[dir][se.Sel.Name] {
 					kind = "map"
 				} else if strings.HasSuffix(txt, ".All()") || strings.HasSuffix(txt, ".Transitions()") || strings.HasSuffix(txt, ".AnyMatch()") {
 					kind = "collection"
